@@ -75,6 +75,7 @@ def build(ctx):
                        "header layouts enumerated: schemas/vs_hdr_a..e (reordered members, custom offsets + gaps + extra members, mixed integer widths, numGroups/numVarDataFields, ref-typed members) and vs_msg_le/be"]
     fam = ["vs_hdr_%s.xml" % k for k in "abcde"]
     plan = [(x, "17") for x in fam] + [("vs_hdr_b.xml", "20"), ("vs_msg_be.xml", "17")] if ctx.quick else [(x, s) for s in ("11", "14", "17", "20") for x in fam + ["vs_msg_le.xml", "vs_msg_be.xml"]]
+    plan = hgen.plan_env(plan, 2)
     for (xml, std) in plan:
         path = ctx.schema(xml)
         rc, out, inc = ctx.slot.generate(path)
